@@ -378,6 +378,17 @@ func (g *Gen) sameConfTwice() {
 
 func genC12(g *Gen) {
 	g.sameConfTwice()
+	// cells at the limits of the column types' ranges: type inference and explicit types
+	for _, cell := range []string{"9223372036854775807", "9223372036854775808", "-9223372036854775808", "-9223372036854775809", "9999999999999999999",
+		"99999999999999999999", "+5", "007", "1e3", "1_000", "0x10", "-0", "1.", ".5", "NaN", "Inf", "true", "TRUE", "T", "1", ""} {
+		g.begin("limit cells")
+		doc := "a,b\n1,x\n" + cell + ",y\n"
+		g.do(Step{Op: "ReadCSV", Recv: -1, Doc: toBS(doc), Csv: &CsvConf{}})
+		for _, t := range []string{"int", "float", "bool", "string"} {
+			g.do(Step{Op: "ReadCSV", Recv: -1, Doc: toBS(doc), Csv: &CsvConf{HasTypes: true, Types: []TypeDecl{{Name: toBS("a"), Typ: t}}}})
+		}
+		g.end()
+	}
 	for rep := 0; rep < g.pick(140, 3000); rep++ {
 		nc := 1 + g.rng.Intn(4)
 		nr := []int{0, 1, 2, 3, 5, 9, 20}[g.rng.Intn(7)]
@@ -546,6 +557,15 @@ func genC09(g *Gen) {
 		rb := g.do(Step{Op: "Rebuild", Recv: f})
 		g.do(Step{Op: "Equals", Recv: f, Other: rb})
 		g.do(Step{Op: "Equals", Recv: rb, Other: f})
+		// a key with ties: the order of tied rows may not depend on the storage layout (enum columns left
+		// out: a rebuilt frame derives its enum order anew)
+		pa := g.do(Step{Op: "Select", Recv: f, Cols: bsList([]string{"I", "F", "B", "S", "P"})})
+		pb := g.do(Step{Op: "Select", Recv: rb, Cols: bsList([]string{"I", "F", "B", "S", "P"})})
+		for _, rev := range []bool{false, true} {
+			sa := g.do(Step{Op: "Sort", Recv: pa, Orders: []Order{{Col: toBS("B"), Rev: rev}}})
+			sb := g.do(Step{Op: "Sort", Recv: pb, Orders: []Order{{Col: toBS("B"), Rev: rev}}})
+			g.do(Step{Op: "Equals", Recv: sa, Other: sb, Opts: []int{78}})
+		}
 		for _, c := range []string{"I", "F", "B", "S", "E"} { // column by column: each type has its own Equals
 			a := g.do(Step{Op: "Select", Recv: f, Cols: bsList([]string{c})})
 			b := g.do(Step{Op: "Select", Recv: rb, Cols: bsList([]string{c})})
@@ -637,7 +657,15 @@ func genC09(g *Gen) {
 			ra := g.do(op)
 			op.Recv = r
 			rb := g.do(op)
-			g.do(Step{Op: "Equals", Recv: ra, Other: rb})
+			// the law "Equal frames give Equal results" is demanded outright where the rebuilt frame carries the
+			// same hidden state as the original, i.e. where no enum column (value table, strictness) is involved
+			// and both calls succeeded; elsewhere the specification computes what Equals must answer
+			var law []int
+			if len(s.colsOfType("enum")) == 0 && g.frame(ra).Err == nil && g.frame(rb).Err == nil {
+				law = []int{78}
+			}
+			g.do(Step{Op: "Equals", Recv: ra, Other: rb, Opts: law})
+			g.do(Step{Op: "Equals", Recv: rb, Other: ra, Opts: law})
 		}
 		g.end()
 	}
